@@ -244,10 +244,14 @@ fn boundary_v<V: Fv>(ctx: &Ctx, rep: &mut Report) {
     let q = spec::Q;
     let deltas: Vec<i64> = vec![-3, -2, -1, 0, 1, 2, 3, -q, q, -1000, 1000];
     let reps = ctx.sz(6, 300);
-    let jobs = deltas.len() * 4 * reps;
+    let jobs = deltas.len() * 5 * reps;
     let r = par_for(jobs, ncpu(), |job, rep| {
         let d = deltas[job % deltas.len()];
-        let style = ((job / deltas.len()) % 4) as u32;
+        // styles 0..3, and 200 = lopsided (s2 alone carries more than half of the bound)
+        let style = match (job / deltas.len()) % 5 {
+            4 => 200,
+            x => x as u32,
+        };
         let mut rng = rng_for(ctx.seed, &format!("c02-bound-{}-{}", V::NAME, job));
         let c = match craft_exact(V::N, V::BOUND + d, style, &mut rng) {
             Some(c) => c,
@@ -294,6 +298,10 @@ fn boundary_v<V: Fv>(ctx: &Ctx, rep: &mut Report) {
                 }
                 if c.s1.iter().any(|x| x.abs() >= 6143) {
                     rep.count("with_s1_at_range_edge", 1);
+                }
+                let n2: i64 = c.s2.iter().map(|x| x * x).sum();
+                if 2 * n2 > V::BOUND {
+                    rep.count("with_s2_carrying_more_than_half_the_bound", 1);
                 }
             }
             _ => rep.inconclusive("crafted triple was not decodable".into()),
@@ -389,6 +397,7 @@ pub fn boundary(ctx: &Ctx, rep: &mut Report) {
         rep.require(k, 20);
     }
     rep.require("with_s1_at_range_edge", 4);
+    rep.require("with_s2_carrying_more_than_half_the_bound", 10);
     rep.require("long_unary_cases", 20);
 }
 
